@@ -109,30 +109,13 @@ def table(pid):
     return deco
 
 
-@table('T05')
-def gen_T05():
-    t = tree('src/ircmsgs.py')
-    v = module_assign(t, 'SERVER_TAG_ESCAPE')
-    pairs = ast.literal_eval(v)
-    need(isinstance(pairs, list) and all(isinstance(p, tuple) and len(p) == 2 for p in pairs),
-         'SERVER_TAG_ESCAPE is not a list of pairs')
-    need(all(len(k) == 1 for k, _ in pairs), 'SERVER_TAG_ESCAPE key is not a single char')
-    pat = module_assign(t, '_escape_sequence_pattern')
-    need(ast.unparse(pat) == "re.compile('\\\\\\\\.?')", 'unescape regex changed: ' + ast.unparse(pat))
-    # except clause of the string branch of IrcMsg.__init__
-    init = find_def(t, '__init__', 'IrcMsg')
-    trys = [n for n in ast.walk(init) if isinstance(n, ast.Try)]
-    need(len(trys) == 1 and len(trys[0].handlers) == 1, 'IrcMsg.__init__: expected one try/except')
-    caught = handler_names(trys[0].handlers[0])
-    need(all(c in EXN for c in caught), 'IrcMsg.__init__ catches unknown exception: %r' % caught)
-    fmt = [n for n in ast.walk(init) if isinstance(n, ast.Constant) and isinstance(n.value, str)
-           and '%Y' in n.value]
-    need(len(fmt) == 1 and fmt[0].value == '%Y-%m-%dT%H:%M:%S.%fZ', 'strptime format changed')
-    out = 'Require Import Base.Wire.\n'
-    out += 'Definition SERVER_TAG_ESCAPE : list (N * list N) :=\n  %s.\n' % clist(
-        '(%d, %s)' % (ord(k), cstr(img)) for k, img in pairs)
-    out += 'Definition PARSE_CATCHES : list exn := %s.\n' % clist(EXN[c] for c in caught)
-    return 'src/ircmsgs.py', out
+def _load_tables():
+    import importlib, glob as _glob
+    tdir = os.path.join(HERE, 'tables')
+    if tdir not in sys.path:
+        sys.path.insert(0, tdir)
+    for f in sorted(_glob.glob(os.path.join(tdir, 't[0-9][0-9]*.py'))):
+        importlib.import_module(os.path.basename(f)[:-3])
 
 
 def write_if_changed(path, content):
@@ -151,6 +134,7 @@ def write_if_changed(path, content):
 
 def generate(ids=None):
     """returns {id: {'sha': ..., 'changed': bool}}; raises Shape on surprise"""
+    _load_tables()
     os.makedirs(GEN, exist_ok=True)
     res = {}
     for pid, f in sorted(GENERATORS.items()):
@@ -164,11 +148,18 @@ def generate(ids=None):
     return res
 
 
-if __name__ == '__main__':
+def main(argv):
     try:
-        r = generate(sys.argv[1:] or None)
+        r = generate(argv or None)
     except Shape as e:
         print('gen_tables: SHAPE ERROR: %s' % e)
-        sys.exit(3)
+        return 3
     for k, v in r.items():
         print(k, v['sha'], 'changed' if v['changed'] else 'same')
+    return 0
+
+
+if __name__ == '__main__':
+    sys.path.insert(0, HERE)
+    import gen_tables as _gt
+    sys.exit(_gt.main(sys.argv[1:]))
